@@ -13,11 +13,24 @@ package tbtree
 //@   ensures cowOrigVals: !old(l.mut) ==> forall(k, 0, len(l.values), unchanged(l.values[k]))
 //@   ensures cowFresh: old(l._ts) < ts && !old(l.mut) ==> sameobj(r0, newLeaf) && newLeaf != nil && fresh(newLeaf) && fresh(newLeaf.values)
 //@   ensures cowHdr: old(l._ts) < ts && !old(l.mut) ==> newLeaf.t == l.t && newLeaf._ts == ts && newLeaf.mut && len(newLeaf.values) == len(l.values)
-//@   ensures cowUnshared: old(l._ts) < ts && !old(l.mut) ==> forall(k, 0, len(l.values), newLeaf.values[k] != nil && newLeaf.values[k] != l.values[k])
-//@   ensures cowHist: old(l._ts) < ts && !old(l.mut) ==> forall(k, 0, len(l.values), newLeaf.values[k].hOff == l.values[k].hOff && newLeaf.values[k].hCount == l.values[k].hCount)
+//@   ensures cowUnshared: old(l._ts) < ts && !old(l.mut) ==> forall(k, 0, len(l.values), newLeaf.values[k] != nil && !sameobj(newLeaf.values[k], l.values[k]))
+//@   ensures cowFirstHist: old(l._ts) < ts && !old(l.mut) && len(l.values) >= 1 ==> newLeaf.values[0] != nil && !sameobj(newLeaf.values[0], old(l.values[0])) && newLeaf.values[0].hOff == old(l.values[0].hOff) && newLeaf.values[0].hCount == old(l.values[0].hCount)
+//@   ensures cowFirstKey: old(l._ts) < ts && !old(l.mut) && len(l.values) >= 1 ==> newLeaf.values[0].key == old(l.values[0].key)
+//@   ensures cowFirstTvs: old(l._ts) < ts && !old(l.mut) && len(l.values) >= 1 ==> len(newLeaf.values[0].timedValues) == old(len(l.values[0].timedValues)) && !sameobj(newLeaf.values[0].timedValues, old(l.values[0].timedValues))
+//@   ensures cowFirstTs0: old(l._ts) < ts && !old(l.mut) && len(l.values) >= 1 ==> (old(len(l.values[0].timedValues)) >= 1 ==> newLeaf.values[0].timedValues[0].Ts == old(l.values[0].timedValues[0].Ts))
+//@   ensures cowFirstVal0: old(l._ts) < ts && !old(l.mut) && len(l.values) >= 1 ==> (old(len(l.values[0].timedValues)) >= 1 ==> newLeaf.values[0].timedValues[0].Value == old(l.values[0].timedValues[0].Value))
 //@   loop 1 invariant range: 0 <= i && i <= len(l.values)
 //@   loop 1 invariant hdr: newLeaf != nil && newLeaf.t == l.t && newLeaf._ts == ts && newLeaf.mut && len(newLeaf.values) == len(l.values)
-//@   loop 1 invariant unshared: forall(k, 0, i, newLeaf.values[k] != nil && newLeaf.values[k] != l.values[k])
-//@   loop 1 invariant hist: forall(k, 0, i, newLeaf.values[k].hOff == l.values[k].hOff && newLeaf.values[k].hCount == l.values[k].hCount)
+//@   loop 1 invariant unshared: forall(k, 0, i, newLeaf.values[k] != nil && !sameobj(newLeaf.values[k], old(l.values[k])))
+//@   loop 1 invariant firstHist: (i == 1 ==> newLeaf.values[0] != nil && !sameobj(newLeaf.values[0], old(l.values[0])) && newLeaf.values[0].hOff == old(l.values[0].hOff) && newLeaf.values[0].hCount == old(l.values[0].hCount))
+//@   && (i >= 2 ==> newLeaf.values[0] != nil && !sameobj(newLeaf.values[0], old(l.values[0])) && newLeaf.values[0].hOff == old(l.values[0].hOff) && newLeaf.values[0].hCount == old(l.values[0].hCount))
+//@   loop 1 invariant firstKey: (i == 1 ==> newLeaf.values[0].key == old(l.values[0].key))
+//@   && (i >= 2 ==> newLeaf.values[0].key == old(l.values[0].key))
+//@   loop 1 invariant firstTvs: (i == 1 ==> len(newLeaf.values[0].timedValues) == old(len(l.values[0].timedValues)) && !sameobj(newLeaf.values[0].timedValues, old(l.values[0].timedValues)))
+//@   && (i >= 2 ==> len(newLeaf.values[0].timedValues) == old(len(l.values[0].timedValues)) && !sameobj(newLeaf.values[0].timedValues, old(l.values[0].timedValues)))
+//@   loop 1 invariant firstTs0: (i == 1 ==> (old(len(l.values[0].timedValues)) >= 1 ==> newLeaf.values[0].timedValues[0].Ts == old(l.values[0].timedValues[0].Ts)))
+//@   && (i >= 2 ==> (old(len(l.values[0].timedValues)) >= 1 ==> newLeaf.values[0].timedValues[0].Ts == old(l.values[0].timedValues[0].Ts)))
+//@   loop 1 invariant firstVal0: (i == 1 ==> (old(len(l.values[0].timedValues)) >= 1 ==> newLeaf.values[0].timedValues[0].Value == old(l.values[0].timedValues[0].Value)))
+//@   && (i >= 2 ==> (old(len(l.values[0].timedValues)) >= 1 ==> newLeaf.values[0].timedValues[0].Value == old(l.values[0].timedValues[0].Value)))
 //@   loop 1 decreases len(l.values) - i
 //@   loop 1 assigns newLeaf.values
